@@ -2,6 +2,7 @@
 C07 — SHA-1, MD5 and SHA-256 digests are the standard ones for every message.
 The hypothesis `length < 2^61` is the standards' own domain (bit length < 2^64).
 -/
+import Wencry.Generated.Consts
 import Wencry.Proofs.HashCorrect
 namespace Wencry.Props.C07
 open Wencry Wencry.Model.Hash Wencry.Model.HashBuffer Wencry.Model.Stdio
@@ -30,5 +31,11 @@ theorem init_md5 : Md5.init = Spec.Hash.MD5.H0 := Proofs.HashCompress.md5_init_e
 /-- unknown hash numbers: the factory returns NULL -/
 theorem unknown_hash (alg : Nat) (h : 2 < alg) (m : Bytes) : stringHash alg m = none := by
   rcases alg with _|_|_|a <;> simp_all [stringHash]
+
+/-- generated-data obligation: which hash-mode numbers 0..255 `HashFactory` knows, tabulated through the compiled factory on every run,
+    is what the model knows -/
+theorem factory_knows_the_compiled_hashes :
+    ((List.range 256).all fun t => Gen.hashKnown.getD t false == (stringHash t []).isSome) = true := by
+  decide +kernel
 
 end Wencry.Props.C07
